@@ -5,6 +5,7 @@
 From Coq Require Import List Arith Reals Permutation.
 Import ListNotations.
 From Yaqs Require Import Base.Num Model.NoiseAttrib Proofs.NoiseAttribP Model.DigitalLoop Proofs.DigitalLoopP.
+From Yaqs Require Import Proofs.DissipationP.
 
 Theorem C03_local_selection : forall (A : Type) (kind_of : A -> pkind) a b procs p,
   In p (local_procs kind_of a b procs) <->
@@ -28,3 +29,15 @@ Theorem C03_every_gate_once : forall sampling fuel c ex ev, NoDup (map id c) ->
   run sampling fuel c = Some (ex, ev) -> Permutation ex (filter gate c).
 Proof. exact executed_perm. Qed.
 Print Assumptions C03_every_gate_once.
+
+(* the dissipation sweep (apply_dissipation): every process the sweep reaches is damped exactly once, at its own site (a two-site
+   process at its right site); the correspondence check identifies the operator contracted in with the exponential built from that
+   process's OWN strength and compares the order with damp_schedule *)
+Theorem C03_every_process_damped_once : forall L kinds k kd, nth_error kinds k = Some kd -> damp_reached L kd = true ->
+  cnt k (map snd (damp_schedule L kinds)) = 1%nat.
+Proof. exact damped_exactly_once. Qed.
+Print Assumptions C03_every_process_damped_once.
+Theorem C03_damped_at_own_site : forall L kinds i k, In (i, k) (damp_schedule L kinds) ->
+  exists kd, nth_error kinds k = Some kd /\ damp_here i kd = true.
+Proof. exact damped_at_own_site. Qed.
+Print Assumptions C03_damped_at_own_site.
